@@ -177,6 +177,63 @@ def run(ctx):
         ok_blocks = [bb for bb, e, item in paths.return_exprs(b, eb) if paths.is_ok(e)]
         headers = [h for h, lb in b.natural_loops()]
 
+        allform = []
+
+        def predicate_covers(cb):
+            """kinds of comparison that hold on *every* path of the (loop-free) predicate closure on
+            which it can return something other than `false`"""
+            if cb.natural_loops():
+                return set()
+            ebc = ExprBuilder(cb)
+            edges = {}
+            for sb, g, tg in paths.switch_outcomes(cb, ebc):
+                edges.setdefault((sb, tg), []).append(g)
+            flip = lambda g: (("false" if g[0] == "true" else "true"),) + tuple(g[1:])
+            covers = None
+            stack = [(0, (), {}, 0)]
+            npaths = 0
+            while stack:
+                bb, held, benv, depth = stack.pop()
+                if depth > 200 or npaths > 256:
+                    return set()
+                benv = dict(benv)
+                for idx, st in enumerate(cb.blocks[bb]["stmts"]):
+                    if st["k"] != "assign" or st["place"]["proj"]:
+                        continue
+                    l = st["place"]["local"]
+                    rv = st["rv"]
+                    if rv["k"] == "use" and rv["op"].get("k") == "const" and "bool" in rv["op"]:
+                        benv[l] = ("c", bool(rv["op"]["bool"]))
+                    elif rv["k"] == "use" and rv["op"].get("k") in ("move", "copy") and not rv["op"]["place"]["proj"] and rv["op"]["place"]["local"] in benv:
+                        benv[l] = benv[rv["op"]["place"]["local"]]
+                    else:
+                        benv[l] = ("e", ebc.at(bb, idx).rvalue(rv))
+                t = cb.blocks[bb]["term"]
+                if t["k"] == "call" and not t["dest"]["proj"]:
+                    benv[t["dest"]["local"]] = ("e", ebc.at(bb).call(t))
+                if t["k"] == "return":
+                    npaths += 1
+                    r = benv.get(0)
+                    if r is not None and r[0] == "c" and r[1] is False:
+                        continue
+                    ks = set(held)
+                    if r is not None and r[0] == "e":
+                        k = classify(("false", r[1]))
+                        if k:
+                            ks.add(k)
+                    covers = ks if covers is None else covers & ks
+                    continue
+                for sx in cb.succs(bb):
+                    if cb.is_cleanup(sx):
+                        continue
+                    h2 = held
+                    for g in edges.get((bb, sx), []):
+                        k = classify(flip(g)) if g[0] in ("true", "false") else None
+                        if k:
+                            h2 = h2 + (k,)
+                    stack.append((sx, h2, benv, depth + 1))
+            return covers or set()
+
         def classify(g):
             if g[0] not in ("true", "false"):
                 return None
@@ -191,7 +248,15 @@ def run(ctx):
                 l, r = show(cmp_[2]), show(cmp_[3])
                 if l.startswith("len(") and r.startswith("len(") and "stream_models" in l and "stream_models" in r and l != r:
                     return "count"
-            if cmp_[0] == "call" and cmp_[1].endswith("Iterator::all") and not pos and "stream_models" in txt and "zip" in txt:
+            if cmp_[0] == "call" and cmp_[1].endswith("::all") and "Iterator" in cmp_[1] and not pos and "stream_models" not in txt and len(cmp_[2]) == 2:
+                # `others.iter().all(|voice| <the three comparisons>)`: one test, whose predicate
+                # returns true only when all three comparisons hold
+                for cl in [x for x in walk(cmp_[2][1]) if x[0] == "agg" and x[1].startswith("closure:")]:
+                    cb = p.bodies.get(cl[1][len("closure:"):])
+                    if cb is not None and predicate_covers(cb) == {"global", "count", "stream"}:
+                        allform.append(show(cmp_[2][0]))
+                        return "all"
+            if cmp_[0] == "call" and cmp_[1].endswith("::all") and "Iterator" in cmp_[1] and not pos and "stream_models" in txt and "zip" in txt:
                 # the predicate closure compares the two metadata fields with ==
                 for cl in [x for x in walk(cmp_) if x[0] == "agg" and x[1].startswith("closure:")]:
                     cb = p.bodies.get(cl[1][len("closure:"):])
@@ -227,6 +292,17 @@ def run(ctx):
                     ctx.fail("C19-R2", b.path, "comparison skipped " + k, "an iteration over a further voice can complete without evaluating the %s comparison (it sits behind another condition)" % k, b.loc())
                 else:
                     ctx.ok("C19-R2", "every iteration evaluates the %s comparison" % k, b.loc())
+        if "all" in escapes and not any(escapes["all"]):
+            # the single `all` test must not be skippable either
+            skipped = any(b.can_reach(0, x, avoid=err_blocks | sw_of["all"]) for x in ok_blocks)
+            if skipped:
+                ctx.fail("C19-R2", b.path, "comparison skipped all", "Ok(VoiceSet) can be returned without evaluating the compatibility test", b.loc())
+            else:
+                ctx.ok("C19-R2", "the failing outcome of `all(|voice| global == && count == && streams ==)` always ends in Err(MetadataError), and the test cannot be skipped", b.loc())
+                for k in ("global", "count", "stream"):
+                    found[k] = True
+        elif "all" in escapes:
+            ctx.fail("C19-R2", b.path, "inequality accepted all", "when the compatibility predicate fails for a voice the set can still be accepted", b.loc())
         for k in ("global", "count", "stream"):
             if k in escapes and not any(escapes[k]):
                 found[k] = True
@@ -249,6 +325,8 @@ def run(ctx):
                     src_ok = True
             if e[0] == "call" and e[1].endswith("Iterator::skip") and e[2][1][0] == "c" and e[2][1][1] in (0, 1) and "voices" in show(e[2][0]):
                 src_ok = True
+        if not src_ok and allform and all("split_first(voices)" in a and a.endswith(".1") for a in allform):
+            src_ok = True      # (first, rest) = voices.split_first(); rest.iter().all(..)
         if not src_ok:
             # plain iteration over all voices
             for bb, t in b.calls():
